@@ -315,6 +315,16 @@ def generate(tier, seed, ctx):
                                     ([(0, 2.0, 10, 100, [-1.0, 1.0]), (3, 1.0, 10, 100, [-1.0, 2.0])] if th else []):
         st("metro1", NB, [pid, sg, thin, burn] + dom)
     st("metro2", NB // 2, [0, 0.5, 1.0, 10, 100, 0.0, 1.0, 0.0, 2.0])
+    # targets with an EXACT-zero plateau next to the edges of a bounded domain (narrow peak in a wide domain; support
+    # smaller than the domain): the chain starts on the plateau, short or no burn-in - containment clause, many seeds
+    for k in range(60 if th else 24):
+        thin, burn = rng.choice([1, 1, 2, 3]), rng.choice([0, 0, 1, 5])
+        if k % 2 == 0:
+            st("metro1", 50, [23, 2.0, thin, burn, 0.0, 100.0])
+            st("metro2", 50, [23, 2.0, 2.0, thin, burn, 0.0, 100.0, 0.0, 100.0])
+        else:
+            st("metro1", 50, [2, 2.0, thin, burn, -10.0, 10.0])
+            st("metro2", 50, [2, 2.0, 3.0, thin, burn, -10.0, 10.0, -8.0, 8.0])
     for pid, s1, s2, thin, burn, dom in [(20, 1.7, 3.4, 40, 200, []), (3, 1.0, 0.6, 40, 100, [-1.0, 1.0, 0.0, 1.0]), (0, 0.5, 1.0, 40, 50, [0.0, 1.0, 2.0, 4.0])]:
         st("metro2", M, [pid, s1, s2, thin, burn] + dom)
     return R
@@ -349,6 +359,10 @@ def compare(rq, impl, model, ctx):
     fs, both = std_outcome(rq, impl, model)
     if tag(model) in ("ok", "err"):
         ctx["nontrivial"].add(_key(op, a, model))
+    if op in ("c18.metro1", "c18.metro2") and tag(impl) == "ok" and tag(model) == "undef" and int(a[3]) >= 1:
+        # the model could not replay (e.g. the proposals could not be reconstructed from the PDF log): the checks on the
+        # implementation's own record (sample count, domain, number and arguments of the PDF evaluations) still run
+        return fs + cmp_metro(rq, op, impl, None, ctx)
     if not both:
         return fs
     ti, tm = toks(impl), toks(model)
@@ -514,6 +528,8 @@ def cmp_metro(rq, op, impl, tm, ctx):
                 out.append(fail("corr", name + ": a proposal inside the domain was treated as outside", "step %d: %r" % (i, appr))); break
     if out:
         return out
+    if tm is None:
+        return [fail("corr", name + ": the model could not replay this run (proposals missing from the request)", "")]
     # model replay (bookkeeping, decisions with the exactly predicted acceptance uniforms, draws)
     n = int(tm[0])
     vals = [fr(t) for t in tm[1:1 + n * dim]]
@@ -685,7 +701,8 @@ def cmp_stat(a, impl, ctx):
             cdf = poly_x(dom[0], dom[1], 0.125)
         else:
             cdf = lambda x: (x - dom[0]) / (dom[1] - dom[0])
-        _ks(v, cdf, "Sample_Metropolis(pdf %d%s)" % (pid, ", bounded" if dom else ""), out, n_eff=n / 1.5)
+        if n >= 2000 and pid != 23:
+            _ks(v, cdf, "Sample_Metropolis(pdf %d%s)" % (pid, ", bounded" if dom else ""), out, n_eff=n / 1.5)
     else:
         x, y = v[0::2], v[1::2]
         pid = int(p[0])
@@ -705,6 +722,8 @@ def cmp_stat(a, impl, ctx):
             cy = poly_x(dom[2], dom[3], 11.0 / 24.0)
         else:
             cx = lambda t_: (t_ - dom[0]) / (dom[1] - dom[0]); cy = lambda t_: (t_ - dom[2]) / (dom[3] - dom[2])
+        if n < 2000 or pid == 23:
+            return out          # short plateau runs: containment only
         _ks(x, cx, what + " x-marginal", out, n_eff=ne)
         _ks(y, cy, what + " y-marginal", out, n_eff=ne)
         if pid in (22, 20, 0):
